@@ -679,9 +679,11 @@ func c16Oracle(c C16Case) (inconclusive bool, err error) {
 						return false
 					}
 				}
-				return fieldHas(r, "Name", f["name"])
+				// the kernel's class names the kind of queue
+				wantType := map[string]string{"posix_mqueue": "posix", "sysv_mqueue": "sysv"}[f["class"]]
+				return fieldHas(r, "Name", f["name"]) && (wantType == "" || fieldHas(r, "Type", wantType))
 			}) {
-				return false, fail("no mqueue rule with the recorded queue and access")
+				return false, fail("no mqueue rule with the recorded queue, type and access")
 			}
 		case "io_uring":
 			if !findKind("io_uring", func(r RS) bool { return fieldHas(r, "Access", f["requested"]) }) {
@@ -748,6 +750,16 @@ func genC16Case(t *rapid.T) C16Case {
 						nr.Fields[fk] = fv
 					}
 					nr.Fields[k] = r.Fields[k]
+					if k == "name" && chance(t, "casevariant", 2) {
+						// the same name in another letter case is another file
+						b := base.Fields["name"]
+						if i := strings.LastIndex(strings.TrimRight(b, "/"), "/"); i >= 0 && i+1 < len(b) {
+							nr.Fields[k] = b[:i+1] + strings.ToUpper(b[i+1:i+2]) + b[i+2:]
+							if nr.Fields[k] == b {
+								nr.Fields[k] = b[:i+1] + strings.ToLower(b[i+1:i+2]) + b[i+2:]
+							}
+						}
+					}
 					if k == "requested_mask" {
 						if _, ok := nr.Fields["denied_mask"]; ok {
 							nr.Fields["denied_mask"] = r.Fields["denied_mask"]
